@@ -149,7 +149,7 @@ def check_cache_coherence(ctx, db):
             # (b) preceded by `if (!info.flag) info = X->fn(cache)` or by `info = fn(cache)` / declaration from fn(cache)
             if not ok:
                 for s in f.walk():
-                    if s.id >= m.id:
+                    if s.pos >= m.pos:
                         continue
                     asg = None
                     if s.k == 'IfStmt':
@@ -181,7 +181,7 @@ def check_cache_coherence(ctx, db):
         gets = [c for c in f.walk() if c.k == 'CXXMemberCallExpr' and (c.callee or '').endswith('::get')]
         st = [x for x in f.walk() if is_assign(x) and x.child('lhs').k == 'MemberExpr' and x.child('lhs').n.endswith('_valid')]
         ok = len(sets) == 1 and norm(sets[0].args[0].text()) == 'this->name' and len(gets) == 1 and norm(gets[0].args[0].text()) == 'this->name'
-        ok = ok and len(st) == 1 and st[0].child('lhs').n == flag and st[0].child('rhs').text() == 'true' and lvalue_key(st[0].child('lhs').child('base')) == lvalue_key(sets[0].args[1].args[0] if sets[0].args[1].k == 'CXXConstructExpr' else sets[0].args[1]) and st[0].id < sets[0].id
+        ok = ok and len(st) == 1 and st[0].child('lhs').n == flag and st[0].child('rhs').text() == 'true' and lvalue_key(st[0].child('lhs').child('base')) == lvalue_key(sets[0].args[1].args[0] if sets[0].args[1].k == 'CXXConstructExpr' else sets[0].args[1]) and st[0].pos < sets[0].pos
         ctx.check(ok, 'R-FLAG', '%s/cache-set' % f.qn.replace('gdstk::', ''), f.loc(), 'the result is stored under the cell\'s own name after setting exactly `%s` on the entry fetched for that name' % flag)
     # wrappers without a cache: build a local cache, delegate, clear every entry
     ws = [f for qn in ('gdstk::Cell::bounding_box', 'gdstk::Cell::convex_hull', 'gdstk::Reference::bounding_box', 'gdstk::Reference::convex_hull') for f in db.fn(qn, all=True) if not any('Map<' in p['t'] for p in f.params)]
@@ -225,8 +225,8 @@ def check_init(ctx, db):
                 continue
             ctx.touch(f)
             rets = [r for r in f.walk() if r.k == 'ReturnStmt']
-            first_ret = min([r.id for r in rets] + [10 ** 9])
-            asg = [x for x in f.walk() if is_assign(x) and x.id < first_ret]
+            first_ret = min([r.pos for r in rets] + [10 ** 9])
+            asg = [x for x in f.walk() if is_assign(x) and x.pos < first_ret]
             t = ' '.join(norm(x.text()) for x in asg[:4])
             if qn.endswith('Label::bounding_box'):
                 ok = '(min = this->origin)' in t.replace('$', '') and '(max = this->origin)' in t.replace('$', '')
@@ -254,8 +254,8 @@ def check_extrema_consumers(ctx, db):
             a = arr.n
             n += 1
             ctx.touch(f)
-            ptrs = [v for v in f.walk() if v.k == 'VarDecl' and v.child('init') is not None and v.id > c.id and re.search(r'\b%s\.items\b' % a, norm(v.child('init').text()))]
-            loops = [l for l in f.walk() if l.k == 'ForStmt' and l.id > c.id and l.child('init') is not None and re.search(r'\b%s\.count\b' % a, norm(l.child('init').text()) + ' ' + norm(l.child('cond').text() if l.child('cond') is not None else ''))]
+            ptrs = [v for v in f.walk() if v.k == 'VarDecl' and v.child('init') is not None and v.pos > c.pos and re.search(r'\b%s\.items\b' % a, norm(v.child('init').text()))]
+            loops = [l for l in f.walk() if l.k == 'ForStmt' and l.pos > c.pos and l.child('init') is not None and re.search(r'\b%s\.count\b' % a, norm(l.child('init').text()) + ' ' + norm(l.child('cond').text() if l.child('cond') is not None else ''))]
             bad = []
             for v in ptrs:
                 if norm(v.child('init').text()) != '%s.items' % a:
@@ -349,10 +349,10 @@ def check_hull_corners(ctx, db):
         raise AnalysisBroken('convex_hull: reads of the qhull vertex coordinates not found')
     ok = sorted((i_, s_) for _, i_, _, s_ in reads) == [(0, 'x'), (1, 'y')] and len({vk for _, _, vk, _ in reads}) == 1
     if ok:
-        lo, hi = sorted(r[0].id for r in reads)
+        lo, hi = sorted(r[0].pos for r in reads)
         vk = reads[0][2]
         # the vertex pointer is not advanced between the two reads
-        ok = not any(c.k == 'CallExpr' and lo < c.id < hi and any(_strip_casts(a_).k == 'UnaryOperator' and _strip_casts(a_).op == '&' and lvalue_key(_strip_casts(_strip_casts(a_).child('sub'))) == vk for a_ in c.args) for c in f.walk())
+        ok = not any(c.k == 'CallExpr' and lo < c.pos < hi and any(_strip_casts(a_).k == 'UnaryOperator' and _strip_casts(a_).op == '&' and lvalue_key(_strip_casts(_strip_casts(a_).child('sub'))) == vk for a_ in c.args) for c in f.walk())
     ctx.check(ok, 'R-EFFECT', 'convex_hull/qhull-vertex', f.loc(), 'each reported vertex takes x from point[0] and y from point[1] of the same qhull vertex (an input point)',
               'the qhull branch stores %s' % sorted((i_, s_) for _, i_, _, s_ in reads))
 
